@@ -41,6 +41,8 @@ def check(res, tier):
         src = gen.pp_program(p)
         for kind, msrc in mutate.text_mutants(src, rng):
             cases.append((kind, None, msrc, "reject"))
+        for kind, msrc in mutate.text_wellformed(src):
+            cases.append((kind, None, msrc, "accept"))
     outs = pipeline.farm(ddp, [({"main.ddp": s}, cfg, {"compile_only": True}) for _, _, s, _ in cases])
     st = Counter()
     for (kind, p, src, v), r in zip(cases, outs):
